@@ -66,7 +66,7 @@ def eval_expr(e, sigma):
     if k == "a":
         return 2
     x, y = eval_expr(e[1], sigma), eval_expr(e[2], sigma)
-    return {"+": x + y, "-": max(x - y, 0), "*": x * y, "//": x // max(y, 1), "min": min(x, y), "max": max(x, y)}[k]
+    return {"+": x + y, "-": max(x - y, 0), "*": x * y, "//": x // max(y, 1), "/": x // max(y, 1), "min": min(x, y), "max": max(x, y)}[k]
 
 
 def gen_case(alpha, rng, maxp=5, with_sym=True, symp=.12):
